@@ -72,6 +72,13 @@ BOUNDARY_BIG = [16384, 32768, 65536]
 
 def gen_op(rng):
     msgs = []
+    if rng.random() < 0.02:
+        # a large message (beyond 64 KiB) that is cut short, alone or after a complete one: a short body is an error, never a message
+        n = rng.choice([65536, 65537, 70000, 90000, 200000])
+        body = bytes([rng.choice([1, 3, 5])]) + bytes(rng.randrange(256) for _ in range(200)) * (n // 200 + 1)
+        stream = (frame(2, b"\x01ab") if rng.random() < 0.5 else b"") + frame(rng.choice([1, 2, 3]), body[:n])
+        cut = len(stream) - rng.choice([1, 2, 100, n // 2, n - 1])
+        return "frame %s %s" % (rng.choice(["read", "serve"]), ",".join(hx(c) for c in chunkings(rng, stream[:cut])))
     if rng.random() < 0.12:
         # a message the handler rejects (first byte 3, 17, 31, ...: see the engine), then messages that are no longer than it
         s0 = rng.choice([8, 16, 40, 64])
